@@ -11,22 +11,30 @@ RULE = ("BFS over histories of new request (acquire; acquire whose callback rele
         "running request, fire (ok/fail) of a run function's Deferred, on a real DeferredLock and "
         "DeferredSemaphore(1..3). Every transition runs on the real object; the global grant order, the holder "
         "count at every grant (also inside re-entrant cascades), the documented tokens/locked attributes and the "
-        "run() results are compared with a FIFO list reference. non-trivial = distinct canonical states in which "
-        "a request had to wait, a cancellation happened, a re-entrant release cascaded or a run() was outstanding")
-BOUNDS = {"quick": "lock + semaphore limits 1..3, depth 8", "thorough": "lock + semaphore limits 1..3, depth 10"}
+        "run() results are compared with a FIFO list reference. non-trivial = distinct (canonical state, "
+        "exercised case) pairs for transitions in which a request had to wait, a release or a run() result "
+        "granted none / one / a re-entrant cascade of waiters, or a pending / granted / running request was cancelled")
+BOUNDS = {"quick": "lock + semaphore limits 1..3, depth 8", "thorough": "lock + semaphore limits 1..3, depth 9"}
 ASSUMPTIONS = [
     "canonical state = live (pending / held / running) requests in request order with kind and observed status, the "
     "real waiting list mapped to those requests, tokens/locked; completed, released and cancelled requests are "
-    "dropped because neither the primitive nor the harness references them again",
+    "dropped because neither the primitive nor the harness references them again; states are deduplicated on a "
+    "64-bit hash of that tuple (PYTHONHASHSEED fixed by ./check)",
     "a run() whose function has been invoked counts as a holder until the function's result exists; cancelling a "
     "running run() is followed by observing whether the function's Deferred now has a result (either is accepted)",
 ]
-MIN = {"quick": {"states": 20000, "nontrivial": 15000, "outcomes": 9},
-       "thorough": {"states": 100000, "nontrivial": 80000, "outcomes": 9}}
+MIN = {"quick": {"states": 400000, "nontrivial": 480000, "outcomes": 14},
+       "thorough": {"states": 400000, "nontrivial": 480000, "outcomes": 14}}
+
+LEVEL_TEXT = ("every history of the alphabet up to the depth bound is executed on the real primitive and compared "
+              "step by step with a FIFO list reference; a pass means no such history breaks capacity, FIFO grant "
+              "order, cancellation or run() release accounting")
+LEVEL_NOTE = ("bounded: limits 1..3, depth 8/9; callbacks re-enter only through release(); acquire() from inside a "
+              "callback and user cancellers are outside the alphabet")
 
 CONFIGS = [("lock", 1), ("sem", 1), ("sem", 2), ("sem", 3)]
 KINDS = ["A", "AR", "RV", "RX", "RD"]
-DEPTH = {"quick": 8, "thorough": 10}
+DEPTH = {"quick": 8, "thorough": 9}
 
 
 class FnError(Exception):
@@ -315,12 +323,12 @@ def run_shard(shard, tier, seed):
         # coverage bookkeeping per executed transition (a cancelled request leaves no trace in the state)
         fl = st.last_flags
         if fl:
-            stats.nt((cfg, canon(st), tuple(sorted(fl))))
+            stats.nt((cfg, hash(canon(st)), tuple(sorted(fl))))
             for f in fl:
                 stats.outcome(f)
         return invariant(st, hist)
 
-    res = bfs(_prefix_initial(cfg, prefix), apply, enabled, canon, inv, depth)
+    res = bfs(_prefix_initial(cfg, prefix), apply, enabled, lambda st: hash(canon(st)), inv, depth)
     pre = [list(e) for e in prefix]
     for i, (sig, detail, hist) in enumerate(res.violations):
         res.violations[i] = (sig, detail, pre + [list(e) for e in hist])
